@@ -95,7 +95,10 @@ def gen_action(rng, used):
         return ("lp", rng.choice([50, 150, 300]))
     if k == "prepend":
         return ("prepend", rng.choice([None, 65000, 65009]), rng.choice([1, 2, 3]))
-    return (rng.choice(["cadd", "creplace", "cremove"]), rng.sample(COMMS, rng.choice([1, 2])))
+    k = rng.choice(["cadd", "creplace", "cremove"])
+    if k == "creplace" and rng.random() < 0.3:
+        return (k, [])           # replace with nothing: the documented way to clear the COMMUNITIES attribute
+    return (k, rng.sample(COMMS, rng.choice([1, 2])))
 
 
 def gen_case(rng):
@@ -247,6 +250,8 @@ def oracle(c, out):
         return None if out == "ok" else (out.split()[0] + "-" + c["alias"] + "-communities", out[:400])
     if out.startswith("stored-route-mutated"):
         return ("stored-route-mutated", out[:300])
+    if out.startswith("loaded-through-the-api-differs"):
+        return ("policy-loaded-through-the-api-evaluates-differently", out[:400])
     if out.startswith("not-repeatable"):
         return ("not-repeatable", out[:300])
     if out.startswith(("err", "panic")):
